@@ -24,6 +24,7 @@ EXPLANATION = ("For SortedSchedulingAlgo and RoundRobin: schedule() returns run_
                "zero; amp-period conversions are dimensionally consistent; the algorithm-side feasibility checker has no shortcut "
                "acceptance (shared with C06)."
                ' Added in round 3: row acceptance of the feasibility oracle (shared with C06), the output entry is the computed entry itself (no repetition over several periods). Allocation-loop rules follow the working variables schedule / queue / rate_idx by name and answer ANALYSIS-ERROR when those no longer exist.')
+EXPLANATION += " Added in rounds 4-5: the description handed to the algorithms is the network's present one and the caller's own copy (stateless-view and escape rules); order provenance of locally built per-session vectors against the queue position that indexes them; the minimum-rate gate and the output mapping are decided on decision tables / the expanded mapping."
 NOT_DECIDED = ("feasibility of the concrete numbers produced; 'never delivers more than requested' over a whole simulation; behaviour of "
                "user-supplied sort functions and estimators")
 
